@@ -130,6 +130,16 @@ fn corruptions(kind: &str, cur: &Value) -> Vec<(String, Value)> {
             out.push(("too_long".into(), json!("a".repeat(84))));
             out.push(("drop_last".into(), json!(s.chars().take(s.len().saturating_sub(1)).collect::<String>())));
             out.push(("with_one".into(), json!(format!("{s}1"))));
+            // look-alikes: Cyrillic o (U+043E), dotless i (U+0131), Kelvin sign (U+212A), fullwidth letters;
+            // their code points truncated to one byte are printable ASCII
+            let mut hg: Vec<char> = s.chars().collect();
+            if let Some(c) = hg.first_mut() {
+                *c = '\u{43e}';
+            }
+            out.push(("homoglyph_first".into(), json!(hg.iter().collect::<String>())));
+            out.push(("homoglyph_appended".into(), json!(format!("{s}\u{131}"))));
+            out.push(("kelvin_sign".into(), json!(format!("\u{212a}{s}"))));
+            out.push(("fullwidth".into(), json!(s.chars().map(|c| char::from_u32(c as u32 + 0xfee0).unwrap_or(c)).collect::<String>())));
         }
         "channel" => {
             for c in [
